@@ -47,7 +47,10 @@ CodeOfFloat(T, w, d, norm, clip) ==
     ELSE IF clip THEN
          \* scale 2^(w-1) and saturate (D1); |x| >= 1 is recognised on the dyadic so that 2^31 is never formed
          IF BitLen(Abs(d[1])) + d[2] >= 1 THEN (IF d[1] > 0 THEN MaxCode(w) ELSE MinCode(w))      \* |x| >= 1
-         ELSE GridJ(d, w)
+         ELSE LET k == -(d[2] + (w - 1)) IN          \* x * 2^(w-1) = m / 2^k
+              IF k <= 0 THEN GridJ(d, w)
+              ELSE LET q == SignOf(d[1]) * RHE(Abs(d[1]), k) IN
+                   IF q > MaxCode(w) THEN MaxCode(w) ELSE IF q < MinCode(w) THEN MinCode(w) ELSE q    \* rounding up to 2^(w-1) saturates too
     ELSE ScaleRound(GridJ(d, w), w, T)
 
 ExpCode(T, sub, v, norm, clip) ==
